@@ -35,9 +35,22 @@ def is_scope(a):
     return isinstance(a, tuple) and a and a[0] == 'param' and a[2] == 'scope'
 
 
+def _canon_access(v):
+    """`xs.get(i)` matched as Some is the element `xs[i]`."""
+    if not isinstance(v, tuple) or not v:
+        return v
+    if v[0] == 'field' and len(v) == 3 and v[2] == '0' and isinstance(v[1], tuple) and v[1] and v[1][0] == 'down' and v[1][2] == 'Some' \
+            and is_call(v[1][1]) and v[1][1][1].split('::')[-1] == 'get' and len(v[1][1][2]) == 2 and ('slice' in v[1][1][1] or 'Vec' in v[1][1][1]):
+        return ('index', _canon_access(v[1][1][2][0]), _canon_access(v[1][1][2][1]))
+    if v[0] == 'call' and v[2] and (v[1].split('::')[-1] in ('as_deref', 'as_deref_mut') or
+                                  (v[1].split('::')[-1] == 'map' and len(v[2]) == 2 and isinstance(v[2][1], tuple) and v[2][1][0] == 'fn' and v[2][1][1].split('::')[-1] in ('as_ref', 'deref', 'as_deref', 'borrow'))):
+        return _canon_access(v[2][0])       # Option<Arc<T>> seen as Option<&T>: the same value
+    return tuple(_canon_access(x) if isinstance(x, tuple) else x for x in v)
+
+
 def PS(v):
     """Render with parameters by position-independent names kept (parameter names are part of the hole id)."""
-    return S(v)
+    return S(_canon_access(v))
 
 
 def hole_of(v):
@@ -188,11 +201,11 @@ def signatures(ctx):
                 if c in COMPILE:
                     ev.append(hole_of(('call', c, e[2])))
                 elif c.startswith('compile::Scope::') and last in SCOPE_EVENTS:
-                    ev.append('%s(%s)' % (last, ', '.join(S(a) for a in e[2] if not is_scope(a))))
+                    ev.append('%s(%s)' % (last, ', '.join(PS(a) for a in e[2] if not is_scope(a))))
                 elif c in ('compile::list_fold', 'compile::for_while'):
-                    ev.append('%s(%s)' % (last, ', '.join(hole_of(a) or S(a) for a in e[2])))
+                    ev.append('%s(%s)' % (last, ', '.join(hole_of(a) or PS(a) for a in e[2])))
                 elif last == 'unify' and 'Context' in c:
-                    ev.append('unify(target, %s)' % S(e[2][2]))
+                    ev.append('unify(target, %s)' % PS(e[2][2]))
             rows.append({'fn': path, 'form': form, 'kind': 'RET', 'term': t, 'events': ev, 'error': err})
         for pth in rc.inlined:
             ctx.analysed['functions'].add(pth)
@@ -302,42 +315,74 @@ def schema_rules(ctx, only=None):
             return fn in sel and (sel[fn] is None or re.search(sel[fn], form) is not None)
         rows = [r for r in rows if keep(r['fn'], r['form'])]
         by_key = {k: v for k, v in by_key.items() if keep(k[0], k[1])}
+    # a code generation path is matched with a schema row of its function by content (same event sequence, equivalent term),
+    # not by the conditions it is reached under: `if i >= len { .. } match &stmts[i]` and `match stmts.get(i)` are the same forms
+    def equiv(r, exp):
+        if exp.get('kind', 'RET') != r['kind']:
+            return False, None
+        if r['kind'] != 'RET':
+            return True, r['error']
+        if r['term'] is None:
+            return False, r['error']
+        ref = parse_term(exp['term'])
+        rho = V('ρ')
+        got = outcomes_key(evaluate(norm_scribe(r['term']), rho))
+        want = outcomes_key(evaluate(norm_scribe(ref), rho))
+        return got == want, None
+    used = set()
     for r in rows:
-        key = (r['fn'], r['form'])
         short_fn = r['fn'].split('::')[-2].replace('<impl ast::', '').replace('>', '') + '::' + r['fn'].split('::')[-1] if 'impl' in r['fn'] else r['fn'].split('::')[-1]
         k = 'form:%s[%s]' % (short_fn, r['form'])
         where = ctx.facts().fn(r['fn']).where()
+        cands = [(key, exp) for key, exp in by_key.items() if key[0] == r['fn'] and key not in used]
+        # prefer the row filed under the same conditions, then any row of the function
+        cands.sort(key=lambda kv: kv[0][1] != r['form'])
+        hit, why = None, None
+        for key, exp in cands:
+            try:
+                ok, _ = equiv(r, exp)
+            except Opaque as e:
+                ok, why = False, 'evaluation failed: %s' % e
+            except Exception as e:
+                ok, why = False, 'schema table row unparsable: %s' % e
+            if ok and (r['kind'] != 'RET' or r['events'] == exp['events']):
+                hit = (key, exp)
+                break
+        if hit is None:
+            # report against the row filed under the same conditions when there is one
+            same = by_key.get((r['fn'], r['form']))
+            detail = 'term = %s; events = %s' % (tstr(norm_scribe(r['term'])) if r['term'] else r['error'], r['events'])
+            if same is not None and (r['fn'], r['form']) not in used:
+                used.add((r['fn'], r['form']))
+                seen.add((r['fn'], r['form']))
+                if r['kind'] == 'RET' and r['term'] is not None and same.get('kind', 'RET') == 'RET':
+                    try:
+                        eq, _ = equiv(r, same)
+                    except Exception as e:
+                        eq, why = False, str(e)
+                    if not eq:
+                        rho = V('ρ')
+                        try:
+                            detail = 'emitted: %s\n     schema:  %s\n     emitted ρ ↦ %s\n     schema  ρ ↦ %s' % (tstr(norm_scribe(r['term'])), same['term'], outs_str(evaluate(norm_scribe(r['term']), rho)), outs_str(evaluate(norm_scribe(parse_term(same['term'])), rho)))
+                        except Exception:
+                            pass
+                        ctx.ob(rid, k, False, 'emitted term ≡ schema: %s' % same.get('meaning', ''), where, detail)
+                    else:
+                        ctx.ob(rid, k, True, 'emitted term ≡ schema: %s' % same.get('meaning', ''), where, detail)
+                        ctx.ob('R01.2', k, False, 'scope mutations and child compilations happen in the schema\'s order', where, 'emitted order: %s\n     schema order:  %s' % (r['events'], same['events']))
+                else:
+                    ctx.ob(rid, k, False, 'code generation path ≡ schema row: %s' % same.get('meaning', ''), where, why or detail)
+            else:
+                ctx.ob(rid, k, False, 'code generation path without a reviewed schema', where, why or detail)
+            continue
+        used.add(hit[0])
+        seen.add(hit[0])
+        exp = hit[1]
         if r['kind'] != 'RET':
-            exp = by_key.get(key)
-            seen.add(key)
-            ctx.ob(rid, k, exp is not None and exp.get('kind') == r['kind'], 'non-returning path (%s) is listed in the schema table' % r['kind'], where, r['error'])
+            ctx.ob(rid, k, True, 'non-returning path (%s) is listed in the schema table' % r['kind'], where, r['error'])
             continue
-        exp = by_key.get(key)
-        if exp is None:
-            ctx.ob(rid, k, False, 'code generation path without a reviewed schema', where, 'term = %s; events = %s' % (tstr(r['term']) if r['term'] else r['error'], r['events']))
-            continue
-        seen.add(key)
-        if r['term'] is None:
-            ctx.ob(rid, k, False, 'emitted term not reconstructible (fail closed)', where, r['error'])
-            continue
-        try:
-            ref = parse_term(exp['term'])
-        except Exception as e:
-            ctx.ob(rid, k, False, 'schema table row unparsable', where, str(e))
-            continue
-        rho = V('ρ')
-        try:
-            got = outcomes_key(evaluate(norm_scribe(r['term']), rho))
-            want = outcomes_key(evaluate(norm_scribe(ref), rho))
-            ok = got == want
-            detail = 'emitted: %s' % tstr(norm_scribe(r['term']))
-            if not ok:
-                detail += '\n     schema:  %s\n     emitted ρ ↦ %s\n     schema  ρ ↦ %s' % (exp['term'], outs_str(evaluate(norm_scribe(r['term']), rho)), outs_str(evaluate(norm_scribe(ref), rho)))
-        except Opaque as e:
-            ok, detail = False, 'evaluation failed: %s' % e
-        ctx.ob(rid, k, ok, 'emitted term ≡ schema: %s' % exp.get('meaning', ''), where, detail)
-        ctx.ob('R01.2', k, r['events'] == exp['events'], 'scope mutations and child compilations happen in the schema\'s order', where,
-               'emitted order: %s\n     schema order:  %s' % (r['events'], exp['events']) if r['events'] != exp['events'] else str(r['events']))
+        ctx.ob(rid, k, True, 'emitted term ≡ schema: %s' % exp.get('meaning', ''), where, 'emitted: %s' % tstr(norm_scribe(r['term'])))
+        ctx.ob('R01.2', k, True, 'scope mutations and child compilations happen in the schema\'s order', where, str(r['events']))
     ctx.rule('R01.2', 'environment-shape invariant: order of push_scope/insert/pop_scope/child relative to child compilations = schema')
     for key, r in by_key.items():
         if key not in seen:
